@@ -395,7 +395,48 @@ def rule_pandas_all(ctx):
                 break
 
 
+def rule_fresh_cursor(ctx):
+    """C05.g: a cursor nobody has used yet is in the connector's initial state: `arraysize` 1 (the DB-API default fetchmany()
+    relies on), `rowcount` and `sqlstate` None — read through the public properties of a cursor built by the real constructor."""
+    from ..values import ClsRef
+
+    prog = ctx.prog
+    loc = "fakesnow/cursor.py"
+    want = {"arraysize": 1, "rowcount": None, "sqlstate": None}
+    n = 0
+
+    def run(I):
+        duck, conn, _cur = make_session()
+        cur = I.construct(ClsRef(f"fakesnow.{CUR[0]}.{CUR[1]}"), [conn, duck, Const(False)], {}, None)
+        out = {}
+        for a in want:
+            try:
+                out[a] = I.getattr(cur, a)
+            except Exception as e:  # noqa: BLE001  (an AttributeError raised inside the analysed property)
+                out[a] = e
+        return Tup([out[a] if not isinstance(out[a], Exception) else Sym(f"raises {type(out[a]).__name__}") for a in want])
+
+    for p in explore(prog, lambda: ExecHooks(None), run, max_paths=8):
+        if p.outcome != "return":
+            ctx.ob("C05.g", "a fresh cursor can be constructed and its properties read", False, loc, repr(p.value))
+            ctx.violation("C05.g", "cursor", "FakeSnowflakeCursor.__init__", "fresh cursor state unreadable", loc,
+                          f"constructing a cursor and reading arraysize / rowcount / sqlstate raises {getattr(p.value, 'cls', p.value)}")
+            continue
+        for a, v in zip(want, p.value.items):
+            n += 1
+            ok = isinstance(v, Const) and v.v == want[a] and type(v.v) is type(want[a])
+            ctx.ob("C05.g", f"fresh cursor: {a} == {want[a]!r}", ok, loc, tagof(v))
+            if not ok:
+                ctx.violation("C05.g", "cursor", "FakeSnowflakeCursor.__init__", f"fresh cursor {a}", loc,
+                              f"a cursor that has not executed anything reports {a} = `{tagof(v)}` (expected {want[a]!r}): "
+                              + ("fetchmany() without a size returns that many rows per call instead of one" if a == "arraysize"
+                                 else "the attribute is unset or stale before the first execute"))
+        break
+    ctx.floor("C05.g fresh cursor properties", n, 3)
+
+
 RULES = [
+    ("C05.g", rule_fresh_cursor, ("quick", "thorough")),
     ("C05.f", rule_pandas_all, ("quick", "thorough")),
     ("C05.a", rule_reset, ("quick", "thorough")),
     ("C05.b", rule_positional, ("quick", "thorough")),
